@@ -427,12 +427,14 @@ fn exec_thread(t: usize, prog: Arc<Program>, objs: Rc<SObjs>, rec: Arc<Mutex<Rec
     let mut mg: Vec<Option<loom::sync::MutexGuard<'static, ()>>> = (0..o.mutexes.len()).map(|_| None).collect();
     let mut rg: Vec<Option<RwG>> = (0..o.rwlocks.len()).map(|_| None).collect();
     let mut results: Vec<Res> = Vec::with_capacity(prog.threads[t].len());
+    // handles moved into this thread's frame by `ArcHold` (dropped by unwinding on a panic)
+    let mut own: Vec<Option<Handle>> = (0..o.handles.len()).map(|_| None).collect();
 
     for (i, op) in prog.threads[t].iter().enumerate() {
         let r = if op.g.map(|g| results.get(g.idx) != Some(&g.res)).unwrap_or(false) {
             Res::Skip
         } else {
-            exec_op(t, &op.k, &prog, &objs, o, &rec, &mut mg, &mut rg)
+            exec_held(t, &op.k, &prog, &objs, o, &rec, &mut mg, &mut rg, &mut own)
         };
         results.push(r);
         let mut rc = rec.lock().unwrap();
@@ -442,6 +444,41 @@ fn exec_thread(t: usize, prog: Arc<Program>, objs: Rc<SObjs>, rec: Arc<Mutex<Rec
     // release in a fixed order (guards first)
     drop(mg);
     drop(rg);
+    drop(own);
+}
+
+/// Ops on a handle that lives in the thread's own frame: move it to the shared slot for the
+/// duration of the op (no loom operation involved in the move).
+#[allow(clippy::too_many_arguments)]
+fn exec_held(
+    t: usize,
+    k: &K,
+    prog: &Arc<Program>,
+    objs: &Rc<SObjs>,
+    o: &'static SObjs,
+    rec: &Arc<Mutex<Rec>>,
+    mg: &mut [Option<loom::sync::MutexGuard<'static, ()>>],
+    rg: &mut [Option<RwG>],
+    own: &mut [Option<Handle>],
+) -> Res {
+    if let K::ArcHold { h } = *k {
+        own[h] = o.handles[h].borrow_mut().take();
+        return Res::U;
+    }
+    let slot = match *k {
+        K::ArcClone { from, .. } => Some(from),
+        K::ArcDrop { h } | K::ArcForget { h } | K::ArcCount { h } | K::ArcGetMut { h } | K::ArcTryUnwrap { h } | K::ArcRawRoundTrip { h } | K::ArcIncStrong { h, .. } | K::ArcDecStrong { h } => Some(h),
+        _ => None,
+    };
+    let held = slot.filter(|h| own[*h].is_some());
+    if let Some(h) = held {
+        *o.handles[h].borrow_mut() = own[h].take();
+    }
+    let r = exec_op(t, k, prog, objs, o, rec, mg, rg);
+    if let Some(h) = held {
+        own[h] = o.handles[h].borrow_mut().take();
+    }
+    r
 }
 
 #[allow(clippy::too_many_arguments)]
@@ -603,6 +640,7 @@ fn exec_op(
             std::mem::forget(rx);
             Res::U
         }
+        K::ArcHold { .. } => unreachable!("handled by exec_held"),
         K::ArcNew { h, arc } => {
             let p = Payload { arc, cell: prog.objs.arcs[arc], objs: Rc::as_ptr(objs) };
             let a = loom::sync::Arc::new(p);
